@@ -58,6 +58,17 @@ theorem C20_imports_resolve :
   · right
     cases ho : i.optional <;> simp [ho] at g ⊢ <;> exact g
 
+/-- every source file parses with the grammar of the lowest Python version that setup.py declares as
+supported (`python_requires`), as far as Python's own `ast.parse(feature_version=…)` models the
+differences (assignment expressions, positional-only parameters, pattern matching, parenthesised context
+managers, exception groups, type statements); the table is regenerated on every run -/
+theorem C20_syntax_within_declared_python :
+    ∀ f ∈ Refs.syntaxTable, f.2 = none := by
+  have h : Refs.syntaxTable.all (fun f => f.2.isNone) = true := by decide +kernel
+  intro f hf
+  have := (List.all_eq_true.mp h) f hf
+  cases h2 : f.2 <;> simp [h2] at this ⊢
+
 /-! non-vacuity: the tables are not empty and contain unguarded references that are checked -/
 example : 100 < Refs.refs.length ∧ 10 < Env.modules.length := by decide +kernel
 example : (Refs.refs.filter (fun r => !r.guarded)).length > 100 := by decide +kernel
@@ -67,3 +78,4 @@ example : envHas "numpy" "float_" = false ∧ envHas "numpy" "float64" = true :=
 example : envHas "numpy.ndarray" "ptp" = false ∧ envHas "numpy.ndarray" "T" = true := by decide +kernel
 example : ["numpy", "scipy", "h5py"].all (Refs.declaredRequirements.contains ·) = true := by decide +kernel
 example : (Refs.imports.filter (fun i => !i.declared && !i.optional)).length = 0 := by decide +kernel
+example : 20 < Refs.syntaxTable.length ∧ Refs.declaredPython = (3, 6) := by decide +kernel
